@@ -63,6 +63,8 @@ def evaluate(case):
         return "row sums not zero"
     if not (np.array_equal(surf.data, s0) and np.array_equal(dist.data, h0) and np.array_equal(V, v0) and np.array_equal(E, e0)):
         return "inputs were modified (frame)"
+    if case.get("from_model"):
+        return None          # a solver model need not have symmetric S, h: the symmetric-only clauses are not evaluated
     # detailed balance below the cap, in log space (the weights themselves under/overflow for large |E|):
     # log Q_rc - log Q_cr = log(V_c/V_r) + 2 beta (E_r - E_c)
     for r, c in zip(rows, cols):
